@@ -333,6 +333,28 @@ def into_sourcemap(ctx, rule):
     ctx.check(ok, rule, fn, "ignore_list", "every element of the builder's ignore list is added to the map", detail=str(ig))
 
 
+def plain_setters(ctx, rule):
+    """Setters of the builder and of the map store their argument unconditionally."""
+    want = {
+        B + "add_to_ignore_list": ("call", "BTreeSet::insert(arg1.ignore_list,arg2)"),
+        "types::SourceMap::add_to_ignore_list": ("call", "BTreeSet::insert(arg1.ignore_list,arg2)"),
+        B + "set_debug_id": ("store", "debug_id", "arg2"),
+        "types::SourceMap::set_debug_id": ("store", "debug_id", "arg2"),
+        B + "set_source_root": ("store", "source_root", "Option::map(arg2,fn:Into::into)"),
+        B + "set_file": ("store", "file", "Option::map(arg2,fn:Into::into)"),
+        "types::SourceMap::set_file": ("store", "file", "Option::map(arg2,fn:Into::into)"),
+    }
+    for path, spec in want.items():
+        b = ctx.body(path)
+        rets = b.return_blocks()
+        if spec[0] == "call":
+            sites = [bi for bi, t in b.calls() if q.shape(b.expr_of_call(t)) == spec[1]]
+        else:
+            sites = [bi for bi, si, s, it in b.locations() if not it and s["k"] == "assign" and _is_field(s["place"], spec[1]) and q.shape(b.expr_of_rvalue(s["rv"])) == spec[2]]
+        ok = len(sites) == 1 and all(b.dominates(sites[0], r) for r in rets)
+        ctx.check(ok, rule, path, "unconditional", "%s records its argument on every path (no filtering, no condition)" % path.split("::")[-1], detail=str(sites))
+
+
 def contents_resize(ctx, rule):
     for fn, vec, cmp_ok in ((B + "set_source_contents", "source_contents", ("Lt(Vec::len(arg1.source_contents),Vec::len(arg1.sources))",)),
                             ("types::SourceMap::set_source_contents", "sources_content", ("Ne(Vec::len(arg1.sources),Vec::len(arg1.sources_content))", "Ne(Vec::len(arg1.sources_content),Vec::len(arg1.sources))",
